@@ -587,8 +587,8 @@ run_func(const int * ops, int n)
 
 /* ------------------------------------------------------------------ units */
 struct fam { const char * name; void (*run)(const int *, int); int nops, depth; int fixed; };
-static struct fam FAMS[12]; static int nfams;
-struct unit { int fam; int ops[6]; int n; };
+static struct fam FAMS[16]; static int nfams;
+struct unit { int fam; int ops[12]; int n; };
 static struct unit * units; static int nunits;
 
 static void
@@ -599,6 +599,14 @@ add_histories(int fam, int nops, int depth)
 		total = 1; for (i = 0; i < d; i++) total *= nops;
 		for (h = 0; h < total; h++) { struct unit * u; int x = h; units = realloc(units, sizeof(*units) * (size_t)(nunits + 1)); u = &units[nunits++]; memset(u, 0, sizeof(*u)); u->fam = fam; u->n = d; for (i = 0; i < d; i++) { u->ops[i] = x % nops; x /= nops; } }
 	}
+}
+/* one explicit longer history (grow well past the first reallocation, shrink back across the release threshold, use again) */
+static void
+add_long(int fam, const int * ops, int n)
+{
+	struct unit * u; int i;
+	units = realloc(units, sizeof(*units) * (size_t)(nunits + 1)); u = &units[nunits++]; memset(u, 0, sizeof(*u)); u->fam = fam; u->n = n;
+	for (i = 0; i < n && i < 12; i++) u->ops[i] = ops[i];
 }
 static void add_unit(int fam, int a, int b){ struct unit * u; units = realloc(units, sizeof(*units) * (size_t)(nunits + 1)); u = &units[nunits++]; memset(u, 0, sizeof(*u)); u->fam = fam; u->n = 2; u->ops[0] = a; u->ops[1] = b; }
 
@@ -673,9 +681,13 @@ main(int argc, char ** argv)
 	sas[0] = &sa0; sas[1] = NULL;
 	f = addfam("elasticarray", run_ea, EA_NOPS, D); add_histories(f, EA_NOPS, D);
 	f = addfam("ptrheap", run_heap, HP_NOPS, D); add_histories(f, HP_NOPS, D);
+	{ static const int L1[] = {1, 0, 1, 2, 4, 4, 4, 4, 4, 0, 3}, L2[] = {0, 1, 2, 0, 1, 3, 3, 3, 3, 2, 4}; add_long(f, L1, 11); add_long(f, L2, 11); }
 	f = addfam("elasticqueue", run_eq, EQ_NOPS, D + 2); add_histories(f, EQ_NOPS, D + 2);
 	f = addfam("seqptrmap", run_spm, SPM_NOPS, D + 1); add_histories(f, SPM_NOPS, D + 1);
 	f = addfam("timerqueue", run_tq, TQ_NOPS, D); add_histories(f, TQ_NOPS, D);
+	{ static const int L3[] = {0, 1, 0, 1, 0, 2, 2, 2, 2, 1, 4}; add_long(f, L3, 11); }
+	f = addfam("elasticqueue", run_eq, EQ_NOPS, 0); { static const int L4[] = {1, 1, 2, 2, 2, 2, 2, 2, 2, 2, 0, 0}; add_long(f, L4, 12); }
+	f = addfam("seqptrmap", run_spm, SPM_NOPS, 0); { static const int L5[] = {1, 1, 2, 2, 2, 2, 2, 2, 2, 2, 0, 0}; add_long(f, L5, 12); }
 	f = addfam("events", run_events, EV_NOPS, D); add_histories(f, EV_NOPS, D);
 	f = addfam("network", run_net, 0, 0); for (i = 0; i < 2; i++) { add_unit(f, 0, i); add_unit(f, 1, i); add_unit(f, 3, i); } add_unit(f, 2, 0);
 	f = addfam("netbuf", run_netbuf, 0, 0); add_unit(f, 0, 0); add_unit(f, 1, 0); add_unit(f, 0, 1);
